@@ -170,7 +170,8 @@ def main():
     rep.add_model("MC_CssColor", vlib.check_model("MC_CssColor", "MC_CssColor.cfg"), "definition sanity incl. the OutFormat table's domain")
     specs = specs_for(t, rnd)
     behs = pairs.record(specs)
-    keep = [(s, b) for s, b in zip(specs, behs) if b and b[0].get("valid")]
+    # (a refused pair stays in when its spelling is one of the documented ones: TLC reports it)
+    keep = [(s, b) for s, b in zip(specs, behs) if b and (b[0].get("valid") or b[0].get("mustParse"))]
     dropped = len(specs) - len(keep)
     specs = [s for s, _ in keep]
     behs = [b for _, b in keep]
